@@ -971,11 +971,12 @@ impl FromStr for Epoch {
                 details: "less than 7 characters",
             })
         } else {
-            let format = if &s[..2] == "JD" {
+            // NOTE: The string may contain any unicode character: it is not sliced at fixed byte offsets.
+            let format = if s.starts_with("JD") {
                 "JD"
-            } else if &s[..3] == "MJD" {
+            } else if s.starts_with("MJD") {
                 "MJD"
-            } else if &s[..3] == "SEC" {
+            } else if s.starts_with("SEC") {
                 "SEC"
             } else {
                 // Not a valid format, hopefully it's a Gregorian date.
@@ -984,15 +985,26 @@ impl FromStr for Epoch {
 
             // This is a valid numerical format.
             // Parse the time scale from the last three characters (TS trims white spaces).
-            let ts = TimeScale::from_str(&s[s.len() - 3..]).with_context(|_| ParseSnafu {
+            let ts_str = s.get(s.len() - 3..).ok_or(HifitimeError::Parse {
+                source: ParsingError::TimeSystem,
+                details: "parsing from string",
+            })?;
+            let ts = TimeScale::from_str(ts_str).with_context(|_| ParseSnafu {
                 details: "parsing from string",
             })?;
             // Iterate through the string to figure out where the numeric data starts and ends.
             let start_idx = format.len();
-            let num_str = s[start_idx..s.len() - ts.formatted_len()].trim();
+            let num_str = s
+                .get(start_idx..s.len() - ts.formatted_len())
+                .ok_or(HifitimeError::Parse {
+                    source: ParsingError::ValueError,
+                    details: "parsing as JD, MJD, or SEC",
+                })?
+                .trim();
             let value: f64 = match lexical_core::parse(num_str.as_bytes()) {
-                Ok(val) => val,
-                Err(_) => {
+                // The initializers below only accept finite values.
+                Ok(val) if f64::is_finite(val) => val,
+                _ => {
                     return Err(HifitimeError::Parse {
                         source: ParsingError::ValueError,
                         details: "parsing as JD, MJD, or SEC",
